@@ -13,7 +13,9 @@ Hypothesis norm_some : forall u v u', norm u v = Some u' -> app u' v = app u v.
 (* event as stamped by the cache: target version, and Some u for an update / None for a custom event *)
 Record ev := { e_ver : nat; e_upd : option upd }.
 Inductive citem := CLoaded | CEvent (e : ev).                 (* wsConn.queue items for one subscription *)
-Inductive eitem := IEvent (u : upd) | ICustom | IGetResp (v : val) | IAddSub (s : nat).  (* EventSubscription.queue *)
+Inductive eitem := IEvent (u : upd) | ICustom | IGetResp (v : val) | IAddSub (s : nat)   (* EventSubscription.queue *)
+                 | INop (tag : nat).   (* a task that does not touch the resource: the answer to an access or call request
+                                          passing through the resource's queue (Cache.sendRequest) *)
 
 Record sub := { subscribed : bool; loaded : bool; sver : nat; sval : val; flag : bool;
                 eq : list ev; sent : bool; cq : list citem }.
@@ -44,6 +46,7 @@ Definition replay (p : nat * val) (l : list ev) : nat * val := fold_left proc l 
 
 Inductive action :=
 | SvcUpdate (u : upd) | SvcCustom | SvcAnswer
+| SvcNop (tag : nat)         (* an answer routed through the resource's queue *)
 | Subscribe (s : nat)
 | RunE                       (* cache worker executes the head of the resource queue *)
 | RunC (s : nat)             (* connection worker executes the head item for subscription s *)
@@ -77,6 +80,9 @@ Definition step (σ : st) (a : action) : st :=
       if answered σ then σ else
       {| truth := truth σ; answered := true; qe := qe σ ++ [IGetResp (truth σ)];
          rs_loaded := rs_loaded σ; rs_val := rs_val σ; rs_ver := rs_ver σ; rs_subs := rs_subs σ; subs := subs σ |}
+  | SvcNop n =>
+      {| truth := truth σ; answered := answered σ; qe := qe σ ++ [INop n];
+         rs_loaded := rs_loaded σ; rs_val := rs_val σ; rs_ver := rs_ver σ; rs_subs := rs_subs σ; subs := subs σ |}
   | Subscribe s =>
       if subscribed (subs σ s) then σ else
       let x := subs σ s in
@@ -108,6 +114,9 @@ Definition step (σ : st) (a : action) : st :=
             end
           else {| truth := truth σ; answered := answered σ; qe := q;
                   rs_loaded := rs_loaded σ; rs_val := rs_val σ; rs_ver := rs_ver σ; rs_subs := rs_subs σ; subs := subs σ |}
+      | INop _ :: q =>
+          {| truth := truth σ; answered := answered σ; qe := q;
+             rs_loaded := rs_loaded σ; rs_val := rs_val σ; rs_ver := rs_ver σ; rs_subs := rs_subs σ; subs := subs σ |}
       | ICustom :: q =>
           {| truth := truth σ; answered := answered σ; qe := q;
              rs_loaded := rs_loaded σ; rs_val := rs_val σ; rs_ver := rs_ver σ; rs_subs := rs_subs σ;
@@ -233,6 +242,14 @@ Proof.
 Qed.
 
 Lemma inv_svc_custom σ : Inv σ -> Inv (step σ SvcCustom).
+Proof.
+  intros H; inv_fields H. constructor; cbn -[pend cnt replay evs mem]; auto.
+  - rewrite pend_app, H1. reflexivity.
+  - rewrite cnt_app. cbn. lia.
+  - intros s. rewrite cnt_app. cbn. specialize (H3 s). lia.
+Qed.
+
+Lemma inv_svc_nop σ n : Inv σ -> Inv (step σ (SvcNop n)).
 Proof.
   intros H; inv_fields H. constructor; cbn -[pend cnt replay evs mem]; auto.
   - rewrite pend_app, H1. reflexivity.
@@ -446,7 +463,7 @@ Qed.
 Lemma inv_rune σ : Inv σ -> Inv (step σ RunE).
 Proof.
   intros H. cbn [step]. pose proof H as H'. inv_fields H'.
-  destruct (qe σ) as [|[u| |v|s0] q] eqn:Eq; [assumption| | | |].
+  destruct (qe σ) as [|[u| |v|s0|n0] q] eqn:Eq; [assumption| | | | |].
   - (* resource event *)
     destruct (rs_loaded σ) eqn:Erl.
     + destruct (norm u (rs_val σ)) as [u'|] eqn:En.
@@ -565,11 +582,13 @@ Proof.
       * rewrite andb_true_r. destruct (rs_loaded σ); cbn; apply H8.
       * rewrite andb_false_r. apply H8.
     + intros Hrl s. rewrite Hsub, Hrl. cbn. apply H9; assumption.
+  - (* a task that does not touch the resource *)
+    apply (pop_inv σ (INop n0) q H Eq); reflexivity.
 Qed.
 
 Theorem step_inv σ a : Inv σ -> Inv (step σ a).
 Proof.
-  destruct a; [apply inv_svc_update|apply inv_svc_custom|apply inv_svc_answer|apply inv_subscribe
+  destruct a; [apply inv_svc_update|apply inv_svc_custom|apply inv_svc_answer|apply inv_svc_nop|apply inv_subscribe
               |apply inv_rune|apply inv_runc|apply inv_respond|apply inv_unqueue|apply inv_startqueue].
 Qed.
 
